@@ -8,7 +8,8 @@ operation the partition induced by all `test` answers, every `test`/`explain` re
 every partition (soundness and completeness), explanations (labels are merged equations and the
 equality follows from the labels alone), order independence over permutations; (4) the HOL wrapper
 `CongClosureHOL` on typed curried terms: `test` against the naive closure on terms and the model,
-`explain` through `theory.check_proof` (conclusion, hypotheses, gaps).
+`explain` through `theory.check_proof` (conclusion, hypotheses, gaps) and, as a ProofTerm tree, against the
+model of `get_proofterm` (PfModel.lean).
 
 Streams: `raw` (operations directly on constants 0..7, adversarial: unknown constants, repeated and
 self-referential equations), `term` (untyped curried terms of depth <= 3 over 8 atoms, flattened as
@@ -1261,7 +1262,8 @@ def run(ctx):
         "naive fixpoint congruence closure in the harness (oracle for the implementation's answers)",
         "kernel checker theory.check_proof for the theorems returned by CongClosureHOL.explain (its soundness is property C01/C02)"]
     ctx.assumptions += [
-        "the Lean model reads dictionaries that cannot miss with a default instead of KeyError",
+        "the Lean core model reads dictionaries that cannot miss with a default instead of KeyError (the proof-term assembly model uses Option reads, proved to hit)",
+        "hol_explain_proof_valid assumes the caller's contract: a proof term given as merge(s, t, pt=q) proves s = t (the harness gives assume(s = t) or symmetric(assume(t = s)))",
         "path_to_root / explain recursion carry fuel in the model (len(proof_forest) steps / len(proof_forest)+1 levels); proof_forest_wellformed and explain_total prove that the bounds are never hit in a reachable state"]
     from prover import congc
     corpus = load_corpus(ctx)
@@ -1384,14 +1386,31 @@ MANIFEST = {
             "by test after every operation, every test/explain result; wrapper -- the internal constant table `index` and every test answer "
             "after every call. The implementation's own answers are judged by a naive fixpoint closure (both directions), explanations by "
             "re-deriving the equality from their labels alone and by closedness, order independence by running permutations; "
-            "CongClosureHOL.explain goes through theory.check_proof (conclusion is exactly the queried equality, hypotheses and gaps are "
-            "merged equations and entail it).",
+            "CongClosureHOL.explain goes through theory.check_proof (conclusion is exactly the queried equality, hypotheses are hypotheses "
+            "of the proof terms given to merge, gaps are merged equations, and together they entail it). "
+            "Proof-term assembly (PfModel.lean, PropsPf.lean): the table pts and get_proofterm of CongClosureHOL.explain are modelled "
+            "statement by statement over an inductive proof system EqPf (assume / sorry / reflexive / symmetric / transitive / combination) "
+            "with the checker EqPf.concl (Thm.symmetric / transitive / combination without types) and ProofTerm.transitive's two reflexive "
+            "short cuts; all dictionary reads of the assembly (index, pts, the explain dictionary) are Option reads. hol_explain_proof_valid: "
+            "for every history of merge (with or without pt=) / add_term / test / explain calls in which every given proof term proves its "
+            "equation, whenever the core explain returns, get_proofterm returns (no KeyError, the assert b == cur_pos holds, recursion at most "
+            "len(proof_forest)+1 deep), the tree checks with conclusion exactly l = r, its hypotheses are hypotheses of given proof terms and its "
+            "gaps are merged equations (or gaps of given proof terms). eqpf_checker_sound: a tree that checks derives its conclusion from its "
+            "leaves by reflexivity, symmetry, transitivity and congruence. hol_pts_irrelevant: pt= arguments never influence index / rev_index / "
+            "the core structure. Tie: for every explain of every generated wrapper history the real ProofTerm tree (rule names, shape, leaf "
+            "equations) is compared with the model's tree (stream hol-proofterm; merges with assume(s = t), symmetric(assume(t = s)) or no "
+            "proof term, mirrored and repeated merges so that pts entries are overwritten or created late).",
     "note": "Trusted: Lean kernel, propext/Classical.choice/Quot.sound, the harness generators/flattener/naive closure, theory.check_proof for "
-            "the HOL wrapper's theorems. Not proved in Lean: that dictionary reads inside merge cannot raise KeyError (the model uses "
-            "defaults; a KeyError in the code shows up as a disagreement and as a failed merge). Not modelled: the proof-term assembly of "
-            "CongClosureHOL.explain (get_proofterm, the table pts) -- judged by the real checker on every generated history; abstractions "
-            "and bound variables in add_term; ematch (outside the property). HolModel carries a ghost log of the core calls (not in the Python) "
-            "to connect the wrapper to the core theorems.",
+            "the HOL wrapper's theorems (the Lean checker EqPf.concl is untyped: combination's test that the function has a function type "
+            "whose domain is the argument's type is not modelled; the real checker is still run on every explain). Not proved in Lean: that "
+            "dictionary reads inside merge / _propagate / the core explain cannot raise KeyError with partial maps (the core model uses "
+            "defaults; a KeyError in the code shows up as a disagreement and as a failed merge) -- only the reads of the proof-term assembly "
+            "are modelled as partial and proved to hit. Not modelled: abstractions and bound variables in add_term (as written the code "
+            "enters an abstraction as an atomic constant after entering its body, answers None for a loose bound variable and for an "
+            "application containing one -- merge then fails with TypeError, test with AssertionError; no congruence under binders: after "
+            "merge(a, b), test(%x. f a, %x. f b) is False; observed on the real code, outside the property's quantifier, no theorem, no "
+            "correspondence stream); ematch (outside the property). HolModel carries a ghost log of the core "
+            "calls (not in the Python) to connect the wrapper to the core theorems.",
     "design_ref": "DESIGN.md 4/C17",
 }
 FINDINGS = [
